@@ -1,5 +1,6 @@
 """C15 — special values and signed zero are handled consistently."""
 import gens
+import gens_float
 import vlib
 from props.common import TRUSTED_BASE, ASSUMPTIONS
 
@@ -88,9 +89,26 @@ def write_ops(rng, fs, quick):
     return ops
 
 
+def syntax_streams(tier, rng, fs, profile):
+    scale = 1 if tier == "quick" else 4
+    fams = gens_float.float_syntax_ops(rng, fs, scale, families=("special",))
+    ops = list(dict.fromkeys(fams["special"]))
+    zeros = []
+    for fmt in gens_float.formats_for(fs):
+        info = gens_float.fmt_info(fmt)
+        o = gens_float.default_opts(info)
+        for s in ("-0", "+0", "0", "-0.0", "-.0", "-0.", "-0" + chr(o.exp) + "5", "-.0" + chr(o.exp) + "-5", "-", "+", "",
+                  "-00", "-0.000", "--0", "-+0"):
+            for p in (0, 1):
+                zeros.append(gens_float.op_pf("f64", fmt, p, o, s.replace(".", chr(o.dp))))
+                zeros.append(gens_float.op_pf("f32", fmt, p, o, s.replace(".", chr(o.dp))))
+    return [("g-special", ops), ("g-signed-zero", list(dict.fromkeys(zeros)))]
+
+
+
 def streams(tier, rng, fs, profile):
     quick = tier == "quick"
-    return [("specials-parse", parse_ops(rng, fs, quick)), ("specials-write", write_ops(rng, fs, quick))]
+    return [("specials-parse", parse_ops(rng, fs, quick)), ("specials-write", write_ops(rng, fs, quick))] + syntax_streams(tier, rng, fs, profile)
 
 
 def nontrivial(op, res):
